@@ -1,9 +1,9 @@
 #!/bin/bash
 # usage: run_seed.sh <seeded dir> <check id>...   applies the patch to /repo, runs the quick checks, reverts
 D=$(cd "$1" && pwd); shift
-cd /verif
-if ! git -C /repo apply --check $D/patch.diff; then echo "patch does not apply"; exit 2; fi
-git -C /repo apply $D/patch.diff
+cd /verif; R=${VERIF_REPO:-/repo}
+if ! git -C $R apply --check $D/patch.diff; then echo "patch does not apply"; exit 2; fi
+git -C $R apply $D/patch.diff
 rm -rf /tmp/verif_evidence_keep && cp -r /verif/evidence /tmp/verif_evidence_keep   # evidence must come from clean-tree runs
 for id in "$@"; do
   out=$(bin/check $id 2>&1 | grep -E "VIOLATION|KNOWN|OK|FAILED" | head -4)
@@ -11,6 +11,6 @@ for id in "$@"; do
   f=$(echo "$out" | grep -o 'replay=[^ ]*' | head -1 | cut -d= -f2)
   if [ -n "$f" ]; then python3 -c "import json;d=json.load(open('$f'));print('      ->', d.get('kind'), d.get('what','')[:300])"; fi
 done
-git -C /repo checkout -- .
+git -C $R checkout -- .
 rm -rf /verif/evidence && mv /tmp/verif_evidence_keep /verif/evidence
-git -C /repo status --short | head -3
+git -C $R status --short | head -3
